@@ -86,7 +86,11 @@ where
         loop {
             match self.records.next() {
                 Some(r) => {
-                    if intersects(&r, self.interval) {
+                    // A container may hold records of other reference sequences (multi-reference
+                    // slices).
+                    if r.reference_sequence_id() == Some(self.reference_sequence_id)
+                        && intersects(&r, self.interval)
+                    {
                         *record = r;
                         return Ok(1);
                     }
